@@ -32,6 +32,7 @@ func runC09(c *Ctx) {
 	c09QuestionMatch(c)
 	c09OnlyCloseNow(c)
 	c09DecrementCloses(c)
+	c09RemoveByIdentity(c)
 	cacheKeyTypeInjective(c, "SHARED")
 }
 
